@@ -19,10 +19,11 @@ Definition cred_outcome_ok {A} (c : lib_exn) (r : res A) : Prop :=
   | _ => False
   end.
 
-(* json.loads on str input either yields a value or raises JSONDecodeError *)
+(* json.loads on str input yields a value or raises a ValueError (JSONDecodeError or another one); what is excluded is only "anything else",
+   i.e. RecursionError on nesting beyond the interpreter's limit - C13 quantifies over nesting far below it *)
 Definition loads_ok (O : oracles) (inp : pystr + json) : Prop :=
   match inp with
-  | inl s => match o_json_loads O true s with JOk _ | JDecodeError => True | _ => False end
+  | inl s => match o_json_loads O true s with JOtherError => False | _ => True end
   | inr _ => True
   end.
 
